@@ -88,6 +88,10 @@ func Convert(value any, typ reflect.Type) (any, error) { //nolint: gocyclo
 	if typ == timeType && rv.Kind() == reflect.String {
 		return ParseDate(rv.String())
 	}
+	// a pointer (ValueOf keeps a pointer to a struct) converts as what it points to
+	if rv.Kind() == reflect.Ptr && !rv.IsNil() && typ.Kind() != reflect.Interface {
+		return Convert(rv.Elem().Interface(), typ)
+	}
 	// currently unused:
 	// case reflect.PtrTo(r.Type()) == typ:
 	// 	return &value, nil
